@@ -105,11 +105,17 @@ def judge(s):
     if not ok:
         return False, raised, None, None
     loc = location_sent(web, s)
-    if loc is None:
-        return True, None, 'no-redirect-sent', None
     raw = lands(whatwg.parse(s, base), valid_hosts)
+    if loc is None:
+        # aiohttp refuses to build the redirect, but the statement is about the accepted URL itself
+        # ("a browser following that URL"): judge the raw string
+        if raw in ('non-http-scheme', 'foreign-host'):
+            return True, None, raw, {'location': None, 'browser': list(whatwg.parse(s, base)), 'raw_string_lands': raw}
+        return True, None, 'no-redirect-sent', None
     res = whatwg.parse(loc, base)
     sent = lands(res, valid_hosts)
+    if sent not in ('non-http-scheme', 'foreign-host') and raw in ('non-http-scheme', 'foreign-host'):
+        return True, None, raw, {'location': loc, 'browser': list(whatwg.parse(s, base)), 'raw_string_lands': raw}
     return True, None, sent, {'location': loc, 'browser': list(res), 'raw_string_lands': raw}
 
 
